@@ -333,6 +333,37 @@ def in_situ(ctx, conf):
             ctx.note("monitor error: " + mon.last_error)
 
 
+def refilled_buffer(ctx, rng, width, channels, uc, first, second):
+    """ONE validator, ONE bytearray that the application refills in place (readinto, buf[:] = ...): each verdict is about what
+    the buffer holds at that moment."""
+    if len(first) != len(second) or not first:
+        return
+    db1, db2 = E.window_db(first, width, channels, uc), E.window_db(second, width, channels, uc)
+    if abs(db1 - db2) < 1.0:
+        return
+    thr = (db1 + db2) / 2  # the two windows are on different sides of it, half a dB or more away
+    case = {"op": "refilled-buffer", "width": width, "channels": channels, "uc": uc, "first": first.hex(), "second": second.hex(), "thr": thr}
+    val = AudioEnergyValidator(thr, width, channels, use_channel=uc)
+    buf = bytearray(first)
+    view = memoryview(buf)
+    ctx.count("windows_judged_in_a_buffer_refilled_in_place")
+    ctx.case(repr(case), True)
+    try:
+        got = [verdict(val, buf)]
+        buf[:] = second
+        got.append(verdict(val, buf))
+        got.append(verdict(val, view))
+        buf[:] = first
+        got.append(verdict(val, view))
+        got.append(verdict(val, buf))
+    except Exception as exc:
+        ctx.violation("refilled-buffer-raises:" + type(exc).__name__, {"case": case, "exception": repr(exc)[:200]})
+        return
+    want = [db1 >= thr, db2 >= thr, db2 >= thr, db1 >= thr, db1 >= thr]
+    if got != want:
+        ctx.violation("verdict-is-about-an-earlier-content-of-the-buffer", {"case": case, "got": got, "expected": want})
+
+
 def run_shard(ctx):
     conf = TIERS[ctx.tier]
     if ctx.shard == ctx.nshards - 1:
@@ -362,6 +393,9 @@ def run_shard(ctx):
                 uc = rng.choice((None, "any", "mix", 0, -1, 3, "whatever"))
             try:
                 check_window(ctx, state, rng, width, channels, data, uc)
+                if i % 4 == 1 and data and uc != "whatever" and not (channels == 1 and uc == 3):
+                    loud = bytes(rng.choice((0x7F, 0x60, 0x81)) if k % width == width - 1 else rng.randrange(256) for k in range(len(data)))
+                    refilled_buffer(ctx, rng, width, channels, uc, data if i % 8 == 1 else bytes(len(data)), loud)
             except Exception as exc:
                 ctx.violation("exception:" + type(exc).__name__,
                               {"case": {"width": width, "channels": channels, "uc": uc, "data": data.hex()}, "exception": repr(exc)[:300]})
@@ -377,6 +411,9 @@ def replay(ctx, case):
         exact_cases(ctx)
         constructor_cases(ctx)
         return
+    if case.get("op") == "refilled-buffer":
+        refilled_buffer(ctx, random.Random(0), case["width"], case["channels"], case["uc"], bytes.fromhex(case["first"]), bytes.fromhex(case["second"]))
+        return
     if "v" in case:
         ctx.note("in-situ witness: re-running the in-situ workload")
         in_situ(ctx, TIERS["quick"])
@@ -391,6 +428,8 @@ def replay(ctx, case):
 
 
 def inconclusive(merged, tier):
+    if not merged["counters"].get("windows_judged_in_a_buffer_refilled_in_place"):
+        return ["monitor never observed windows_judged_in_a_buffer_refilled_in_place"]
     c = merged["counters"]
     out = [f"monitor never observed {k}" for k in
            ("decisions_checked", "exact_boundary_cases", "silence_floor_cases", "constructor_cases",
